@@ -323,6 +323,8 @@ def c18_tasks(tier):
     for (thr, n) in ((2, 3000), (8, 1500), (32, 400)):
         w("threads", "plain", "--mode", "mixed", "--threads", thr, "--from", thr, "--count", n if q else n * 30)
     w("threads", "tsan", "--mode", "mixed", "--threads", 8, "--from", 99, "--count", 300 if q else 6000)
+    for vc in ("sse", "avx", "avx2"):
+        w("threads", "plain", "--mode", "mixed", "--threads", 8, "--vcpu", vc, "--from", 300 + len(vc), "--count", 1500 if q else 45000)
     # the FIPS_MODE build has code (and static storage) of its own in the wrappers
     w("threads", "fips", "--mode", "mixed", "--threads", 8, "--from", 55, "--count", 1500 if q else 45000)
     w("threads", "fips-tsan", "--mode", "mixed", "--threads", 8, "--from", 77, "--count", 300 if q else 6000)
@@ -480,7 +482,7 @@ CHECKS = {
         level="exploration", evaluations=["cbc_calls", "keyexp_calls"], must_observe=["cbc_calls", "keyexp_calls", "cases_sse", "cases_avx", "cases_avx512_g2"],
         rule=("key expansion of random and constant-byte keys for 128/192/256 (+128_enc) on both families and both API routes, compared byte for byte with the FIPS-197 "
               "schedule and its equivalent-inverse decryption schedule; CBC with N = c blocks for c in 1..80 then lengths around the 8/16-block loop edges up to 64 KiB "
-              "(1 MiB in thorough), enc x4/x8 and dec sse/avx/vaes_avx512, in-place or disjoint, data alignment 0..63, compared with the SP 800-38A reference; one decrypt call of 2^32+48 bytes per family "
+              "(1 MiB in thorough), enc x4/x8 and dec sse/avx/vaes_avx512, in-place or disjoint, data alignment 0..63, compared with the SP 800-38A reference; one decrypt call of 2^32+4096+48 bytes per family "
               "(thorough: all key sizes, encrypt too) against OpenSSL; "
               "distinct_nontrivial = distinct (family, key size, dir, in-place, route, block-count class) and (key size, key)"),
         assumptions=AES_TRUST,
@@ -650,7 +652,7 @@ CHECKS = {
         must_observe=["concurrent_ops_compared", "concurrent_histories_compared", "storm_calls", "storm_entries", "static_watch_sections_compared"],
         rule=("(a) static-storage watch: every writable input section the library's 230 objects contribute to the process (from the link map, about 220 sections, listed in the sample) is "
               "snapshotted before the first library call and compared byte for byte after each phase of every workload below; only the 64 dispatch slots and the self-test status may differ; "
-              "(b) 2/8/32 threads each run a seeded sequence of operations on private objects (GCM one-shot/nt/stream, XTS raw/expanded, key expansion + CBC, mh_sha1, mh_sha256, murmur, rolling, "
+              "(b) 2/8/32 threads (and 8 threads under the virtual CPUs sse / avx / avx2, so that the other families run too) each run a seeded sequence of operations on private objects (GCM one-shot/nt/stream, XTS raw/expanded, key expansion + CBC, mh_sha1, mh_sha256, murmur, rolling, "
               "the five hash managers) and, separately, random hash histories (all families, 8 threads): every per-operation result hash / history trace must equal the one from running the "
               "same sequence alone; (c) the same on a ThreadSanitizer build of the C layers (any report is a violation); (d) first-call storms: for each of the 64 dispatched entries, with all "
               "slots re-armed every round, 4-8 threads released from a spinning barrier call the entry on private objects (virtual CPUs host/avx2/sse): every result must equal the "
